@@ -5,6 +5,13 @@ use crate::vals::*;
 use refmodel::ir::OpKind;
 use refmodel::tensor::*;
 
+/// the shape set of the quick gradient checks: rank <= 3 with sizes <= 3, plus rank 4 with sizes <= 2
+pub fn quick_shapes() -> Vec<Vec<usize>> {
+    let mut v = all_shapes(3, 3);
+    v.extend(all_shapes(4, 2).into_iter().filter(|s| s.len() == 4));
+    v
+}
+
 /// all admissible (broadcast-compatible) ordered pairs among `shapes`
 pub fn admissible_pairs(shapes: &[Vec<usize>]) -> Vec<(Vec<usize>, Vec<usize>)> {
     let mut v = vec![];
